@@ -120,6 +120,24 @@ def run(ctx):
             if bad:
                 ctx.violation(key % bad[0], "%s(%s): %s" % (name, cfg, bad[1]), dict(rep, noise_var=nv))
                 break
+        # a receive buffer that the caller refills in place between calls on the same demodulator object
+        if len(ys) >= 16:
+            buf = yt[:8].clone().reshape(1, -1)
+            fresh = yt[8:16].clone().reshape(1, -1)
+            try:
+                dem(buf)
+                dem(buf, noise_var=0.7)
+                buf.copy_(fresh)
+                h_re = dem(buf)
+                s_re = dem(buf, noise_var=0.7)
+                h_ok = dem(fresh.clone())
+                s_ok = dem(fresh.clone(), noise_var=0.7)
+                ctx.count("refilled-buffer-cases")
+                if not torch.equal(h_re, h_ok) or not torch.allclose(s_re, s_ok, rtol=1e-5, atol=1e-6):
+                    ctx.violation(key % "refilled-buffer", "%s(%s): after the receive buffer was refilled in place, the same demodulator object answers for the OLD contents (hard %s vs %s for the new symbols)" % (
+                        name, cfg, [int(v) for v in h_re.reshape(-1).tolist()][:8], [int(v) for v in h_ok.reshape(-1).tolist()][:8]), rep)
+            except Exception as ex:
+                ctx.note("%s(%s): refilled-buffer history raised %s" % (name, cfg, str(ex)[:60]))
         # a per-symbol noise-variance tensor with unequal entries: every LLR is divided by its own symbol's variance
         if b >= 1 and len(ys) >= 8:
             sel_ = list(range(0, len(ys), max(1, len(ys) // 24)))[:24]
